@@ -5,7 +5,11 @@ expected trace is computed by plain Python list code from the timeline in the ca
 
 Case layout (JSON-able)
     {"form": <operator form>, "args": {...}, "sub": S,
-     "src": {"kind": "cold"|"hot"|"sync", "tl": timeline}, ["src2": {...same...} | {"kind": "iter", "vals": [payload..]}]}
+     "src": {"kind": "cold"|"hot"|"sync", "tl": timeline}, ["src2": {...same...} | {"kind": "iter", "vals": [payload..]}],
+     ["resub": {"mode": "after"|"overlap"|"dispose", "d": k}]}
+resub (cold/sync sources only): the SAME built observable is subscribed a second time -- after every source
+terminated (+1+d ticks), overlapping at S+1+d, or at S+d right after disposing the first subscription -- and the
+same oracle is applied to the second probe with its own subscribe tick (signature suffix ":2nd-subscription").
 
 Timeline payloads are value names (vlib.values) or structured payloads
     ["tup", [p..]]  ["dct", [[pk, pv]..]]  ["obj", p]  ["on", p]  ["oe", tag]  ["oc"]
@@ -240,6 +244,29 @@ def run_case(case, build, oracle, extra_classes=None):
     out = src.pipe(op)
     p = lab.probe()
     lab.at(S, lambda: p.subscribe(out))
+    # optional second subscription of the SAME observable object (cold / sync sources only)
+    rs = case.get("resub")
+    p2 = None
+    S2 = D = None
+    if rs is not None and all(sp["kind"] in ("cold", "sync") for sp in specs):
+        p2 = lab.probe("p2")
+        last = max([term[0]] + ([second[3][0]] if second is not None and second[0] == "obs" else []))
+        if rs["mode"] == "after":
+            S2 = last + 1 + rs["d"]
+            lab.at(S2, lambda: p2.subscribe(out))
+        elif rs["mode"] == "overlap":
+            S2 = S + 1 + rs["d"]
+            lab.at(S2, lambda: p2.subscribe(out))
+        elif rs["mode"] == "dispose":
+            S2 = D = S + rs["d"]
+
+            def _swap():
+                p.dispose()
+                p2.subscribe(out)
+
+            lab.at(D, _swap)
+        else:
+            raise HarnessError(f"resub mode {rs['mode']}")
     if lab.run():
         return SKIP(lab.inconclusive)
     alts, cls = oracle(form, args, elems, term, S, second)
@@ -266,11 +293,44 @@ def run_case(case, build, oracle, extra_classes=None):
     got = [tuple(e) for e in p.trace()]
     clause = None
     for exp in alts:
-        clause = diff(exp, got)
+        if D is None:
+            clause = diff(exp, got)
+        else:
+            # first subscription disposed at tick D: everything expected before D, nothing after D,
+            # and what was received must be a prefix of the expected trace
+            head = [e for e in exp if e[0] < D]
+            clause = None
+            if len(got) < len(head) or len(got) > len(exp) or any(g[0] > D for g in got):
+                clause = "disposed-prefix"
+            else:
+                clause = diff(exp[: len(got)], got)
         if clause is None:
             break
     if clause is not None:
         return FAIL(f"{clause}|{form}", f"case={case} S={S} expected={alts[0]} got={p.trace()}", classes=cls)
+    if p2 is not None:
+        cls.append("resub:" + rs["mode"])
+        sh = S2 - S
+        elems_b = [(t + sh, pl) for t, pl in elems]
+        term_b = (term[0] + sh, term[1], term[2])
+        second_b = second
+        if second is not None and second[0] == "obs":
+            second_b = ("obs", second[1], [(t + sh, pl) for t, pl in second[2]], (second[3][0] + sh, second[3][1], second[3][2]))
+        alts_b, _ = oracle(form, args, elems_b, term_b, S2, second_b)
+        okg, msg = p2.grammar_ok()
+        if not okg:
+            return FAIL(f"grammar|{form}:2nd-subscription", f"{msg} case={case} got={p2.trace()}", classes=cls)
+        got_b = [tuple(e) for e in p2.trace()]
+        for exp in alts_b:
+            clause = diff(exp, got_b)
+            if clause is None:
+                break
+        if clause is not None:
+            return FAIL(
+                f"{clause}|{form}:2nd-subscription",
+                f"second subscription of the same observable at tick {S2} ({rs['mode']}): case={case} expected={alts_b[0]} got={p2.trace()} first={p.trace()}",
+                classes=cls,
+            )
     in_vals = [canon(dval(pl)) for _, pl in elems]
     out_vals = [pl for _, k, pl in exp0 if k == "N"]
     boundary = any(c.startswith("b:") for c in cls)
@@ -318,6 +378,15 @@ def draw_sub(draw, *srcs):
     if draw(st.integers(0, 1)):
         return draw(st.integers(0, 2))
     return draw(st.integers(0, hi))
+
+
+def draw_resub(draw, *srcs):
+    """~1/3 of the cold/sync cases: subscribe the same observable a second time."""
+    if any(s is not None and s.get("kind") == "hot" for s in srcs):
+        return None
+    if draw(st.integers(0, 2)) != 0:
+        return None
+    return {"mode": draw(st.sampled_from(["after", "overlap", "dispose"])), "d": draw(st.integers(0, 6))}
 
 
 def draw_count(draw, n):
